@@ -191,7 +191,8 @@ type World struct {
 	Cursors []*mast.Cursor
 	CursorC []Contents // contents of the tree when the cursor was opened
 
-	LastC []Contents // scratch for monitors: contents of each slot as last read
+	LastC   []Contents // scratch for monitors: contents of each slot as last read
+	MshGate func()     // called at every user-marshaler invocation (a scheduling point for engine S)
 
 	Reduced bool // reduced state key
 	NoLog   bool
@@ -267,6 +268,9 @@ func (w *World) RemoteConfig(st *env.Store, withCache bool) *mast.RemoteConfig {
 		rc.UnmarshalerUsesRegisteredTypes = true
 	} else {
 		rc.Marshal = func(v interface{}) ([]byte, error) {
+			if w.MshGate != nil {
+				w.MshGate()
+			}
 			if err := w.Msh.Tick(); err != nil {
 				return nil, err
 			}
